@@ -2,7 +2,9 @@ package gbn
 
 import (
 	"context"
+	"fmt"
 	"io"
+	"math"
 	"time"
 )
 
@@ -139,6 +141,13 @@ handshakeLoop:
 
 		g.log.Debugf("Received client SYN. Sending back.")
 		n = msg.(*PacketSYN).N
+
+		// The sequence space is n+1 and must fit in a uint8, and a
+		// window of zero packets can never make progress.
+		if n == 0 || n == math.MaxUint8 {
+			return fmt.Errorf("client proposed an invalid window "+
+				"size n=%d", n)
+		}
 
 		// Send SYN back
 		syn := &PacketSYN{N: n}
